@@ -19,7 +19,7 @@ PROCS = int(os.environ.get("VERIF_PROCS", "4"))
 SITES_LEDGER = {"NoCert", "NoPub", "RootHex", "RootParse", "LoadPubkeys", "EmptyKeys", "NoBtcKey", "LoadCert",
                 "NoUi", "UiInvalid", "UiHeader", "UiLength", "UiKey", "NoSigner", "SignerInvalid", "SignerHeader",
                 "LegacyLong", "PowLength", "HashMismatch", "Return"}
-SITES_SGX = {"NoCert", "NoPub", "RootLoad", "RootSelf", "Pubkeys", "LoadCert", "NoQuote", "QuoteInvalid",
+SITES_SGX = {"NoCert", "NoPub", "RootLoad", "RootSelf", "Pubkeys", "LoadCert", "TargetValue", "NoQuote", "QuoteInvalid",
              "PowHeader", "PowLength", "HashMismatch", "Return"}
 
 
@@ -49,7 +49,23 @@ def classes(plan):
     if plan["plat"] == "ledger":
         d["ui"] = "%s/%s/%s/%s/%s" % (plan["ui"]["exists"], plan["ui"]["chain"], plan["ui"]["hdr"], uk,
                                       shape(plan["ui"]))
+    tl = target_list_class(plan)
+    if tl != "documented":
+        d["targets"] = tl
+    if plan.get("brk"):
+        d["brk"] = "+".join(plan["brk"])
     return d
+
+
+def target_list_class(plan):
+    """documented | required-only (reordered / some missing) | the list itself when anything else is listed"""
+    tl = list(plan.get("targets", []))
+    req = ["ui", "signer"] if plan["plat"] == "ledger" else ["quote"]
+    if tl == req:
+        return "documented"
+    if all(t in req for t in tl) and len(set(tl)) == len(tl):
+        return "documented" if len(tl) < len(req) else "reordered"     # a missing one shows as exists=f
+    return ",".join(tl)
 
 
 def n_variants(inp):
@@ -60,8 +76,8 @@ def n_variants(inp):
         n = max(n, 19 if led else 11)
     if led and inp["ui"]["hdr"] == "foreign":
         n = max(n, 11)
-    if inp["pow"]["chain"] == "broken" or (led and inp["ui"]["chain"] == "broken"):
-        n = max(n, 10)
+    if inp["brk"]:
+        n = max(n, 5)                                  # kinds of corruption of one element
     if inp["root"] != "right" or inp["certfile"] != "ok":
         n = max(n, 8)
     if inp["file"]["kind"] != "ok":
@@ -176,6 +192,8 @@ MODEL_SITE = {"RootHex": "Root", "RootParse": "Root", "RootLoad": "Root", "RootS
 
 def drifted(plat, model_site, real_site):
     """Does the error site named by the code differ from the model's (not a property of C08)?"""
+    if model_site == "TargetValue":
+        return real_site != "exc:NotImplementedError"
     if real_site.startswith("exc:"):
         return True
     return MODEL_SITE.get(model_site, model_site) != MODEL_SITE.get(real_site, real_site)
@@ -193,6 +211,9 @@ def run(ctx):
         "(`HSM:SIGNER:X.Y` + 32-byte keys hash) is not in the document and is taken from the property text",
         "expected headers are generated with released version numbers only (UI 2.0..5.4, legacy signer "
         "2.0..5.3, powHSM 5.4); foreign headers differ from them in the text, never only in the digits",
+        "an SGX attestation file that lists a VALID element other than the quote as a target makes the command "
+        "end with an internal error (NotImplementedError); such inputs may be refused (verdict open in that "
+        "direction only, spec/VerifyProps.tla SgxExtraTargetOpen); reported to the coordinator",
         "no network: `requests` inside admin.attestation_utils is replaced by a stub serving the plan's URLs "
         "(also the default Intel URL) and refusing everything else; stdout is captured by redirection",
         "inside a class (keys, message contents, how many bytes are cut / added, which link is corrupted, "
@@ -205,16 +226,14 @@ def run(ctx):
     # 1. design check
     import concurrent.futures as cf
     mc_cfg = ctx.pick("MC_Verify.cfg", "MC3_Verify.cfg")
-    gen_cfgs = ctx.pick(["Gen_Verify.cfg"], ["Gen3_Verify.cfg", "Gen2x_Verify.cfg"])
-    with cf.ThreadPoolExecutor(max_workers=5) as ex:
-        f_mc = ex.submit(tlc.check, "Verify", mc_cfg, coverage=ctx.quick, workers=ctx.pick(4, 8))
-        f_gen = [ex.submit(tlc.generate, "GenVerify", g) for g in gen_cfgs]
-        f_neg = ex.submit(tlc.run, "Verify", "Neg_Verify.cfg", workers=1)
-        f_neg2 = ex.submit(tlc.run, "Verify", "Neg2_Verify.cfg", workers=1)
-        r, rn, rn2 = f_mc.result(), f_neg.result(), f_neg2.result()
-    if r.violated:
-        raise core.MachineryError("Verify model violates %s — reproduce on the code before reporting" % r.violated)
-    res.add_tlc(r, "%s exhaustive" % mc_cfg)
+    gen_cfgs = ctx.pick(["Gen_Verify.cfg"], ["Gen2x_Verify.cfg"])
+    ex = cf.ThreadPoolExecutor(max_workers=5)
+    f_gen = [ex.submit(tlc.generate, "GenVerify", g) for g in gen_cfgs]
+    f_neg = ex.submit(tlc.run, "Verify", "Neg_Verify.cfg", workers=1)
+    f_neg2 = ex.submit(tlc.run, "Verify", "Neg2_Verify.cfg", workers=1)
+    # (the exhaustive run goes on while the behaviours are replayed; its result is collected before judging)
+    f_mc = ex.submit(tlc.check, "Verify", mc_cfg, workers=ctx.pick(4, 6))
+    rn, rn2 = f_neg.result(), f_neg2.result()
     if "NeverPrints" not in rn.violated:
         raise core.MachineryError("vacuity guard: the model never returns with printed values")
     # the header expressions with an unescaped '.' (defect repaired in /repo) must break the invariant
@@ -247,16 +266,27 @@ def run(ctx):
     # 3. replay on the real commands
     order = list(range(len(behaviours)))
     ctx.rng.shuffle(order)
-    # boundary first: an input that deviates from a genuine triple in at most one dimension (two in the
-    # thorough tier) is replayed once per listed alternative of every class (which foreign header, which
+    # boundary first: an input that deviates from a genuine triple in at most one dimension is replayed once per listed alternative of every class (which foreign header, which
     # link is corrupted and how, how a file / the root is malformed, how many bytes are cut or added ...)
-    plans, origin = [], []
-    full_upto = ctx.pick(1, 2)
+    plans, origin, skipped = [], [], 0
+    full_upto = 1
     for bi in order:
         b = behaviours[bi]
-        if b["ndev"] <= full_upto:
-            nvar = n_variants(b["inp"])
+        i = b["inp"]
+        crossed = i["targets"] not in (["ui", "signer"], ["quote"]) and (i["brk"] or i["root"] == "wrong")
+        if b["ndev"] <= full_upto or (crossed and b["ndev"] == 2):
+            # (a targets list crossed with where the chain is broken: every kind of corruption of that element)
+            nvar = n_variants(b["inp"]) if b["ndev"] <= full_upto else 5
             for k in range(nvar):
+                p = vo.plan_from_behaviour(b, ctx.rng)
+                p["variant"] = k
+                plans.append(p)
+                origin.append(bi)
+        elif b["ndev"] >= ctx.pick(2, 3) and ctx.rng.random() < ctx.pick(0.45, 0.4):
+            skipped += 1                   # a seeded part of the inputs with the most deviations is left out
+        elif b["ndev"] == 2 and not ctx.quick:
+            k0 = ctx.rng.randrange(19)     # thorough: two-deviation inputs twice, with different alternatives
+            for k in (k0, k0 + 7):
                 p = vo.plan_from_behaviour(b, ctx.rng)
                 p["variant"] = k
                 plans.append(p)
@@ -276,7 +306,8 @@ def run(ctx):
             if len(drift_examples) < 5:
                 drift_examples.append({"model": [b["outcome"], b["site"]], "code": [meta["outcome"], meta["site"]],
                                        "classes": classes(meta["plan"])})
-    res.coverage["behaviours_replayed"] = len(order)
+    res.coverage["behaviours_replayed"] = len(order) - skipped
+    res.coverage["behaviours_left_to_other_seeds"] = skipped
     res.coverage["replays"] = len(plans)
     res.coverage["model_drift"] = drift
     res.coverage["model_drift_examples"] = drift_examples
@@ -288,6 +319,11 @@ def run(ctx):
         meta["src"] = "random"
     res.coverage["random_triples"] = n_rand
     runs += rruns
+    r = f_mc.result()
+    ex.shutdown()
+    if r.violated:
+        raise core.MachineryError("Verify model violates %s — reproduce on the code before reporting" % r.violated)
+    res.add_tlc(r, "%s exhaustive" % mc_cfg)
     # 5. TLC judges every execution (+ corrupted copies of accepted ones, which it must reject)
     traces = [tr for tr, _m in runs]
     verdicts, stats = judge(traces, ctx.pick(PROCS, 12))
@@ -328,6 +364,9 @@ def run(ctx):
     res.add_validation(stats, accepted)
     res.coverage["distinct_abstract_classes_hit"] = len(seen)
     res.coverage["outcomes"] = {"%s:%s" % k: n for k, n in sorted(outcomes.items())}
+    res.coverage["open_verdicts_sgx_valid_extra_target"] = sum(
+        1 for _t, m in runs if m["plan"]["plat"] == "sgx" and m["plan"]["root"] == "right" and any(
+            r != "quote" and not (vo.SGX_PATH[r] & set(m["plan"]["brk"])) for r in m["plan"]["targets"]))
     res.coverage["code_sites_hit"] = dict(sorted(sites.items()))
     rets = [m for _t, m in runs if m["outcome"] == "return"]
     if not rets or len(rets) == len(runs):
